@@ -232,6 +232,13 @@ func runC01(c *Ctx) {
 		n = 400
 	}
 	wireFraming(c, n)
+	// the raw receive paths (XREQ, XSURVEYOR, XSUB) hand over what arrived, whole: header and body glued together are the
+	// bytes that were read, also across queue-length changes (Props.C09.rawrecv_delivers_in_order_at_most_once)
+	for i := 0; i < 12 || (c.Thorough() && i < 300); i++ {
+		runRawRecvScenario(c, i, 45)
+	}
+	runRawRecvResizeWithHeld(c, 0)
+	runRawRecvResizeWithHeld(c, 1)
 	runInprocPipes(c) // inproc has no wire: the established connection as a machine (Props.C01.inproc_pipe_delivers_what_was_sent)
 	runFanoutPartialFailure(c)
 	runFanoutOwnership(c)
